@@ -173,7 +173,7 @@ class Chain(SubCheck):
         "the second stage's reads carry the HP/PS tags written by the first stage unchanged (ReadSetReader copies the BAM tags into Read.HP_tag/PS_tag)",
         "phase sets are named by the 1-based position of their leftmost variant (what `whatshap phase` writes)",
     ]
-    stubs = ["vf/models/haplotag_model.py Reader (PhasedInputReader) and Aln (pysam.AlignedSegment; replay: real AlignedSegment)", "vf/models/core_model.py (replay: compiled whatshap.core)",
+    stubs = ["logger.debug/info/warning statements are removed from the symbolic encoding (their eager str.format would concretise symbolic qualities); the replay runs them", "vf/models/haplotag_model.py Reader (PhasedInputReader) and Aln (pysam.AlignedSegment; replay: real AlignedSegment)", "vf/models/core_model.py (replay: compiled whatshap.core)",
              "symbolic run only: VariantTable built directly instead of VcfReader, a str instead of IndexedFasta, a model of PhasedVcfWriter.write (checks/c17.py _WriterModel); the replay uses the real classes on real files"]
     required_cover = ["stage 1 tags every read with its true haplotype", "stage 2 phases an unphased variant", "already phased variant with votes", "already phased variant without votes",
                       "covered unphased variant gets phased", "two phase sets", "homozygous variant present"]
@@ -192,13 +192,15 @@ class Chain(SubCheck):
                     for m in range(1, len(members) + 1):
                         opts += [list(c) for c in itertools.combinations(members, m)]
                 for R in range(1, rmax + 1):
+                    if V == 4 and R == 3:
+                        continue  # thorough: V = 4 with up to two reads, three reads up to V = 3
                     for reads in itertools.combinations_with_replacement(opts, R):
                         out.append(dict(V=V, psidx=list(psidx), reads=[list(r) for r in reads]))
         return out
 
     def bounds(self, tier):
         sh = self.shapes(tier)
-        return ("%d shapes: V <= %d diploid variants in <= 2 phase sets (every assignment), R <= %d reads each covering a non-empty subset of one phase set's variants (every multiset of such reads); "
+        return ("%d shapes: V <= %d diploid variants in <= 2 phase sets (every assignment), R <= %d reads (R <= 2 for V = 4) each covering a non-empty subset of one phase set's variants (every multiset of such reads); "
                 "symbolic: original phased alleles, haplotype of every read, every quality in 1..3, which variants are unphased in the second input, one variant optionally homozygous"
                 % (len(sh), max(s["V"] for s in sh), max(len(s["reads"]) for s in sh)))
 
@@ -208,7 +210,7 @@ class Chain(SubCheck):
         import fcntl
 
         self.hm = hm
-        self.world = SymWorld(overrides={"whatshap.core": core_model, "whatshap.cli": hm.cli_stub()})
+        self.world = SymWorld(overrides={"whatshap.core": core_model, "whatshap.cli": hm.cli_stub()}, transformer=hm.strip_logging)
         ht = self.world.load("whatshap.cli.haplotag")
         hp = self.world.load("whatshap.cli.haplotagphase")
         vcf = self.world.load("whatshap.vcf")
